@@ -10,6 +10,8 @@
                document dump up to the renaming.  Rewrites: trivia at every lexeme boundary, parentheses around every
                expression node, keyword aliases <-> symbolic forms, injective renamings (fresh, long, soft keywords,
                one-letter names).  A disagreement is delta-debugged to a minimal set of sites = the replay.
+               Models: corpus/c09 (X.xml / X.xta in the 4.x syntax, X.old.xml / X.ta in the 3.x syntax, read with newxta = false),
+               /repo/test/models, generated XML models.
 """
 import binascii
 import hashlib
@@ -32,6 +34,7 @@ LAST_TABLES = GEN[:-5] + ".last.json"      # tables of the last good translation
 CORPUS = os.path.join(core.VERIF, "corpus", "c09")
 VARIANT = os.environ.get("C09_VARIANT", "plain")  # bulk of the pairs; the every-site rewrites are repeated on the ASan+UBSan build
 MASK_NEW = 10   # syntax_t::NEW | GUIDING   (parse_XTA(..., newxta = true, ...))
+MASK_OLD = 9    # syntax_t::OLD | GUIDING   (newxta = false: the 3.x syntax of .ta files and of XML read with newxta = false)
 
 PARSED_LABELS = {"invariant", "guard", "select", "synchronisation", "assignment", "probability", "exponentialrate",
                  "message", "update", "condition"}
@@ -111,7 +114,8 @@ class LeanDrv:
                     if not item:
                         continue
                     a, b, r, toks = item.split(":", 3)
-                    lx.append((int(a), int(b), int(r), [x for x in toks.split(",") if x]))
+                    # (the items of one lexeme are separated by commas; the comma token itself is written ',')
+                    lx.append((int(a), int(b), int(r), [x.replace("\x00", "','") for x in toks.replace("','", "\x00").split(",") if x]))
             res.append(lx)
         return res
 
@@ -125,10 +129,13 @@ class LeanDrv:
 # ----------------------------------------------------------------------------------------------------------------------
 
 class Model:
-    """kind 'xml': ElementTree + text-bearing elements;  kind 'xta': one text block."""
+    """kind 'xml': ElementTree + text-bearing elements;  kind 'xta': one text block.  newxta = False: the model is written in the
+    3.x syntax and read with newxta = false (another keyword set, `const N 3;`, guards as comma lists): every rewrite family
+    applies to it as it does to a 4.x model, the lexer model is asked with the mask of that syntax."""
 
-    def __init__(self, name, kind, source):
-        self.name, self.kind = name, kind
+    def __init__(self, name, kind, source, newxta=True):
+        self.name, self.kind, self.newxta = name, kind, newxta
+        self.mask = MASK_NEW if newxta else MASK_OLD
         self.blocks = []       # [text]
         self.bkind = []        # 'code' | 'name'
         self.bpath = []        # xpath (xml)
@@ -177,7 +184,7 @@ class Model:
 
     def op(self, blocks=None, sites=False):
         text = self.render(blocks)
-        return "%s%s 1 %s" % ("sites" if sites else "", self.kind, hexs(text)), text
+        return "%s%s %d %s" % ("sites" if sites else "", self.kind, 1 if self.newxta else 0, hexs(text)), text
 
 
 def apply_edits(blocks, edits):
@@ -314,6 +321,9 @@ def gen_trivia_edits(S, tables, rng, tname, ttext, every=True, k=1):
     return edits
 
 
+ALIAS_WORDS = {"and": "&&", "or": "||", "not": "!"}   # the pairs as the property names them: by spelling, in every syntax
+
+
 def gen_alias_edits(S, direction):
     edits = []
     for b, kind in enumerate(S.m.bkind):
@@ -324,9 +334,12 @@ def gen_alias_edits(S, direction):
             t = toks[-1]
             text = S.m.blocks[b][a:e]
             if direction == "fwd":
-                if t in ALIAS_FWD:
+                # the site is the WORD (a lexeme of the INITIAL state spelled and / or / not), whatever token the generated keyword table
+                # gives it in this model's syntax: the words are operators of the 3.x, the 4.x and the property syntax alike, so a table
+                # that stops saying so for one of them must show as a changed result, not as a site that is no longer visited
+                if t in ALIAS_FWD or text in ALIAS_WORDS:
                     # `not(` / `not x` -> `!`: keep a blank so that `a and! b`-like glue cannot arise
-                    edits.append([(b, a, e, " " + ALIAS_FWD[t] + " ", 0)])
+                    edits.append([(b, a, e, " " + (ALIAS_FWD.get(t) or ALIAS_WORDS[text]) + " ", 0)])
                 elif t == "T_ASSIGNMENT" and text == ":=":
                     edits.append([(b, a, e, "=", 0)])
             else:
@@ -589,9 +602,11 @@ def load_corpus(ctx):
             src = open(p, encoding="utf-8", errors="replace").read()
             try:
                 if f.endswith(".xml"):
-                    models.append(Model(f, "xml", src))
+                    models.append(Model(f, "xml", src, newxta=not f.endswith(".old.xml")))     # X.old.xml: XML in the 3.x syntax
                 elif f.endswith(".xta"):
                     models.append(Model(f, "xta", src))
+                elif f.endswith(".ta"):
+                    models.append(Model(f, "xta", src, newxta=False))                           # X.ta: text in the 3.x syntax
             except ET.ParseError as ex:
                 ctx.log("skip %s: %s" % (f, ex))
     return models
@@ -605,7 +620,7 @@ def prepare(models, H, L, ctx):
     base = H.run([m.op()[0] for m in models])
     out = []
     for m, a, b in zip(models, ans, base):
-        lx = L.lex(m.blocks)
+        lx = L.lex(m.blocks, mask=m.mask)
         S = Sites(m, lx, [])
         raw = []
         for l in a:
@@ -726,7 +741,7 @@ class Meta:
                 key = "rename:syntax-error-names-one-letter-token"
         self.disagreements.append(key)
         self.ctx.finding(key, "%s rewrite changes the result of %s: %s" % (family, S.m.name, d2),
-                         {"entry": "parse_XML_buffer" if S.m.kind == "xml" else "parse_XTA", "newxta": True, "model": S.m.name,
+                         {"entry": "parse_XML_buffer" if S.m.kind == "xml" else "parse_XTA", "newxta": S.m.newxta, "model": S.m.name,
                           "family": family, "detail": detail, "edits": [[list(e) for e in g] for g in minimal][:20],
                           "renaming": rho, "original_b64": b64(S.m.render()), "rewritten_b64": b64(S.m.render(blocks)),
                           "difference": d2})
@@ -835,7 +850,7 @@ def metamorphic(ctx, M, prepared, tables):
     ctx.log("metamorphic: %d rewritten models to run" % len(items))
     # filter by the lexer model: trivia / alias rewrites must leave the model's token stream unchanged
     keep = []
-    check_idx, texts, expect, masked = [], [], [], []
+    check_idx, texts, expect, masked, masks = [], [], [], [], []
     for i, it in enumerate(items):
         S, family, groups = it[0], it[2], it[4]
         if family in ("trivia", "alias"):
@@ -849,8 +864,12 @@ def metamorphic(ctx, M, prepared, tables):
                     starts = [a for (a, _, _) in tok_lexemes(S.lx[b])]
                     sites = {starts.index(g[0][1]) for g in groups if g[0][0] == b and g[0][1] in starts}
                 masked.append(sites)
-    got = M.L.toks(texts)
-    want = M.L.toks(expect)
+                masks.append(S.m.mask)
+    got, want = [None] * len(texts), [None] * len(texts)
+    for mk in sorted(set(masks)):            # each text with the keyword set of its model's syntax
+        sel = [j for j, x in enumerate(masks) if x == mk]
+        for j, g, w in zip(sel, M.L.toks([texts[j] for j in sel], mask=mk), M.L.toks([expect[j] for j in sel], mask=mk)):
+            got[j], want[j] = g, w
     bad = set()
     for i, g, w, sites in zip(check_idx, got, want, masked):
         # alias rewrites: the pairs are given by the property, the lexer model only has to confirm that every OTHER token
@@ -1247,7 +1266,7 @@ def run(ctx):
     for i in range(ngen):
         models.append(Model("gen%d.xml" % i, "xml", gen_model_xml(ctx.rng, i)))
     prepared = prepare(models, H, L, ctx)
-    cov["models"] = {"total": len(models), "accepted": sum(1 for (_, c, _) in prepared if not c["diags"] or all("ERROR" not in d for d in c["diags"])),
+    cov["models"] = {"total": len(models), "old_syntax": sum(1 for m in models if not m.newxta), "accepted": sum(1 for (_, c, _) in prepared if not c["diags"] or all("ERROR" not in d for d in c["diags"])),
                      "with_errors": sum(1 for (_, c, _) in prepared if any("ERROR" in d for d in c["diags"])),
                      "expression_spans_valid": sum(len(S.spans) for (S, _, _) in prepared),
                      "expression_spans_reported": sum(S.raw_spans for (S, _, _) in prepared)}
@@ -1268,8 +1287,8 @@ def run(ctx):
         if c["crash"]:
             ctx.finding("crash:baseline:" + S.m.name, "the library crashed on an unmodified model", {"model": S.m.name, "out": raw[:20]})
     # how many real text blocks satisfy the hypotheses of the lexer theorems (Renderable, evaluated by the Lean driver)
-    code_blocks = [b for (S, _, _) in prepared for b, k in zip(S.m.blocks, S.m.bkind) if k == "code" and b.strip()]
-    hyp = L.run(["hyp %d - %s" % (MASK_NEW, hexs(b)) for b in code_blocks])
+    code_blocks = [(S.m.mask, b) for (S, _, _) in prepared for b, k in zip(S.m.blocks, S.m.bkind) if k == "code" and b.strip()]
+    hyp = L.run(["hyp %d - %s" % (mk, hexs(b)) for mk, b in code_blocks])
     why = {}
     for o in hyp:
         if not o.startswith("yes"):
@@ -1285,8 +1304,8 @@ def run(ctx):
         bn = builtin_names()
         rho = {x: "rn%d_%s" % (i, x[:3].replace("$", "s").replace("#", "h")) for i, x in enumerate(sorted(occ)) if x not in bn}
         blocks = apply_edits(S.m.blocks, [e for g in rename_edits(occ, rho) for e in g])
-        ren_blocks += [b for b, k in zip(blocks, S.m.bkind) if k == "code" and b.strip()]
-    hyp2 = L.run(["hyp %d - %s" % (MASK_NEW, hexs(b)) for b in ren_blocks])
+        ren_blocks += [(S.m.mask, b) for b, k in zip(blocks, S.m.bkind) if k == "code" and b.strip()]
+    hyp2 = L.run(["hyp %d - %s" % (mk, hexs(b)) for mk, b in ren_blocks])
     cov["lexer_theorem_hypotheses"]["renamed_text_blocks"] = len(ren_blocks)
     cov["lexer_theorem_hypotheses"]["renamed_renderable"] = sum(1 for o in hyp2 if o.startswith("yes"))
     M = Meta(ctx, H, L, tables)
@@ -1384,7 +1403,8 @@ def replay(ctx, path):
     o = base64.b64decode(rp["original_b64"]).decode("utf-8")
     w = base64.b64decode(rp["rewritten_b64"]).decode("utf-8")
     kind = "xml" if rp.get("entry") == "parse_XML_buffer" else "xta"
-    a0, a1 = H.run(["%s 1 %s" % (kind, hexs(o)), "%s 1 %s" % (kind, hexs(w))])
+    nx = 0 if rp.get("newxta") is False else 1
+    a0, a1 = H.run(["%s %d %s" % (kind, nx, hexs(o)), "%s %d %s" % (kind, nx, hexs(w))])
     rho = rp.get("renaming")
     d = differ(canon(a0, rho), canon(a1, rho))
     print("--- original\n" + o[:2000] + "\n--- rewritten\n" + w[:2000])
